@@ -145,11 +145,12 @@ type vfGFCase struct {
 	dead      bool // an entry of an id nobody reports shares the key
 	down      bool // a second source node that cannot be reached
 	staleMin  int
+	extra     int // further reachable source nodes, listed BEFORE the one whose ids label the position (0 / 1 / 3)
 }
 
 func (c *vfGFCase) op() string {
-	return fmt.Sprintf("c17gf cur=%s prev=%s label=%s dbs=%s ages=%s top=%d dead=%v down=%v stale=%d", c.cur, c.prev, c.label,
-		checkpoint.VfInts(c.dbs), checkpoint.VfInts(c.ages), c.top, c.dead, c.down, c.staleMin)
+	return fmt.Sprintf("c17gf cur=%s prev=%s label=%s dbs=%s ages=%s top=%d dead=%v down=%v stale=%d extra=%d", c.cur, c.prev, c.label,
+		checkpoint.VfInts(c.dbs), checkpoint.VfInts(c.ages), c.top, c.dead, c.down, c.staleMin, c.extra)
 }
 
 func vfC17GcFrame(t *testing.T, s *vfutil.Session, c *vfGFCase, tag int, src string) {
@@ -176,6 +177,24 @@ func vfC17GcFrame(t *testing.T, s *vfutil.Session, c *vfGFCase, tag int, src str
 	src1 := vfSrcListen(c.cur, c.prev)
 	defer src1.ln.Close()
 	in := vfStandalone(src1.ln.Addr().String())
+	var liveExtra []string
+	if c.extra > 0 {
+		// several sources: every node's ids must end up in the live set, whatever its place in the list
+		addrs := []string{}
+		shards := []*config.RedisClusterShard{}
+		for i := 0; i < c.extra; i++ {
+			e1 := fmt.Sprintf("%02x", 0xe0+i) + c.cur[2:]
+			e2 := fmt.Sprintf("%02x", 0xf0+i) + c.cur[2:]
+			liveExtra = append(liveExtra, e1, e2)
+			es := vfSrcListen(e1, e2)
+			defer es.ln.Close()
+			addrs = append(addrs, es.ln.Addr().String())
+			shards = append(shards, &config.RedisClusterShard{Master: config.RedisNode{Address: es.ln.Addr().String()}})
+		}
+		in.Addresses = append(addrs, in.Addresses...)
+		in.SetClusterShards(append(shards, &config.RedisClusterShard{Master: config.RedisNode{Address: src1.ln.Addr().String()}}))
+	}
+	s.Count(fmt.Sprintf("cfg_sources_%d", 1+c.extra))
 	if c.down {
 		// an unreachable node: a listener we keep (so nobody else can get the port) that hangs up on
 		// every connection before answering anything
@@ -192,7 +211,12 @@ func vfC17GcFrame(t *testing.T, s *vfutil.Session, c *vfGFCase, tag int, src str
 			}
 		}()
 		in.Addresses = append(in.Addresses, addr)
-		in.SetClusterShards([]*config.RedisClusterShard{{Master: config.RedisNode{Address: src1.ln.Addr().String()}}, {Master: config.RedisNode{Address: addr}}})
+		sh := []*config.RedisClusterShard{}
+		for _, a := range in.Addresses {
+			sh = append(sh, &config.RedisClusterShard{Master: config.RedisNode{Address: a}})
+		}
+		in.SetClusterShards(sh)
+		s.Count("cfg_sources_one_unreachable")
 	}
 	sc := config.GetSyncerConfig()
 	oldIn, oldOut, oldCh := sc.Input, sc.Output, sc.Channel
@@ -265,7 +289,7 @@ func vfC17GcFrame(t *testing.T, s *vfutil.Session, c *vfGFCase, tag int, src str
 	}
 	if !c.down {
 		// the model of gcStaleCp with live = every id the sources reported
-		op := fmt.Sprintf("c17g %d %s %s %s %d %s %s", tag, vfutil.HexS(config.Version), checkpoint.VfHexList(ids), checkpoint.VfHexList(ids), before, ord, st.Encode())
+		op := fmt.Sprintf("c17g %d %s %s %s %d %s %s", tag, vfutil.HexS(config.Version), checkpoint.VfHexList(ids), checkpoint.VfHexList(append(append([]string{}, ids...), liveExtra...)), before, ord, st.Encode())
 		out := []string{fmt.Sprintf("#%d n=%d sp=%s", tag, len(lines), sp[0])}
 		for i, l := range lines {
 			out = append(out, fmt.Sprintf("#%d %s sp=%s", tag, l, sp[i+1]))
@@ -366,6 +390,7 @@ func vfC17GcFrameGen(r *vfutil.Rand) *vfGFCase {
 	}
 	c.dead = r.Chance(1, 3)
 	c.down = r.Chance(1, 6)
+	c.extra = vfutil.Pick(r, []int{0, 0, 1, 3})
 	if r.Chance(1, 3) { // the position in DB 0: where the placeholder of a start that finds nothing is written
 		for i := range c.dbs {
 			if c.dbs[i] == 0 {
@@ -390,7 +415,7 @@ func vfC17GcFrameParse(op string) *vfGFCase {
 	atoi := func(s string) int { n, _ := strconv.Atoi(s); return n }
 	top, _ := strconv.ParseInt(kv["top"], 10, 64)
 	return &vfGFCase{cur: kv["cur"], prev: kv["prev"], label: kv["label"], dbs: checkpoint.VfUnInts(kv["dbs"]), ages: checkpoint.VfUnInts(kv["ages"]),
-		top: top, dead: kv["dead"] == "true", down: kv["down"] == "true", staleMin: atoi(kv["stale"])}
+		top: top, dead: kv["dead"] == "true", down: kv["down"] == "true", staleMin: atoi(kv["stale"]), extra: atoi(kv["extra"])}
 }
 
 func TestVerifC17GcFrame(t *testing.T) {
